@@ -3,8 +3,11 @@ from __future__ import annotations
 
 import numpy as np
 
+from hypothesis import strategies as st
+
 from ..core import Violation, require, require_close
 from ..gen.exprtrees import Evaluator, has_nontrivial_composition, tree_depth, tree_spec
+from ..gen.sparse import build_sparse, sparse_spec
 
 ID = "C01"
 RULE = (
@@ -16,7 +19,7 @@ RULE = (
     "safe_power, maximum with AdArray/ndarray/float operands). Arguments are kept in each function's smooth domain by "
     "frozen affine rescaling (see gen/exprtrees.py). Oracle: value = numpy evaluation of the same tree (rtol 1e-12); "
     "Jacobian = central finite difference of the numpy evaluation (best of h=1e-4,1e-5,1e-6; tolerance 1e-6 of "
-    "max|J|+1) and, when every node is analytic, complex-step derivative (tolerance 1e-9). Non-trivial = depth>=2 with "
+    "max|J|+1) and, when every node is analytic, complex-step derivative (tolerance 1e-9). A second class (1 case in 8) checks the positively homogeneous functions l2_norm / abs / maximum at magnitudes 1e-9..1e6 through f(s u) = s f(u) and J[f(s u)] = s J[f(u)] (rtol 1e-12). Non-trivial = depth>=2 with "
     "a binary op between two AD-dependent operands or a function of a composite; distinct = hash of spec."
 )
 BUDGET = {"quick": {"cases": 4000, "seconds": 45}, "thorough": {"cases": 300000, "seconds": 1200}}
@@ -29,11 +32,69 @@ LEVEL_NOTE = ("Derivative oracle is numerical: a Jacobian error below 1e-6 relat
 DESIGN_REF = "DESIGN.md section 4, C01"
 ASSUMPTIONS = ["evaluation points inside smooth domains (enforced by frozen rescaling)",
                "AdArray is the left operand when combined with ndarrays (documented restriction)"]
-REQUIRED = {"bin": 0.2, "rbin": 0.05, "mat": 0.1, "slice": 0.1, "max": 0.03, "norm": 0.03, "analytic": 0.1}
+REQUIRED = {"bin": 0.12, "rbin": 0.04, "mat": 0.1, "slice": 0.1, "max": 0.03, "norm": 0.03, "analytic": 0.1, "homog": 0.03,
+            "homog-small": 0.01}
+
+
+HOMOG_SCALES = [1e-3, 1e-6, 1e-9, 1e3, 1e6]
+
+
+@st.composite
+def _homog_spec(draw):
+    """Positively homogeneous functions (l2_norm, abs, maximum) at extreme magnitudes: f(s u) = s f(u) and the
+    Jacobian of x -> f(s u(x)) is s times that of x -> f(u(x)).  Values of order 1 are covered by the finite-difference
+    oracle; this class covers magnitudes where absolute tolerances inside the library could bite."""
+    fn = draw(st.sampled_from(["l2_norm", "l2_norm", "abs", "maximum"]))
+    dim = draw(st.integers(2, 3)) if fn == "l2_norm" else 1
+    m = draw(st.integers(1, 4))
+    n = draw(st.integers(1, 5))
+    f = st.floats(-2, 2, allow_nan=False, width=64)
+    return {"homog": fn, "dim": dim, "x": [draw(f) for _ in range(n)],
+            "M": draw(sparse_spec(shape=(m * dim, n), values=st.integers(-3, 3))),
+            "M2": draw(sparse_spec(shape=(m * dim, n), values=st.integers(-3, 3))),
+            "b": [draw(f) for _ in range(m * dim)], "scale": draw(st.sampled_from(HOMOG_SCALES))}
 
 
 def strategy(tier):
-    return tree_spec(max_depth=4 if tier == "quick" else 6)
+    trees = tree_spec(max_depth=4 if tier == "quick" else 6)
+    return st.one_of(trees, trees, trees, trees, trees, trees, trees, _homog_spec())
+
+
+def _check_homog(spec):
+    import porepy as pp
+
+    F = pp.ad.functions
+    x = pp.ad.initAdArrays([np.array(spec["x"], dtype=float)])[0]
+    b = np.array(spec["b"], dtype=float)
+    u = build_sparse(spec["M"]) @ x + b
+    v = build_sparse(spec["M2"]) @ x - b
+    fn, dim, s = spec["homog"], spec["dim"], float(spec["scale"])
+    # keep away from the kinks at scale 1 (same constants for both scales)
+    if fn == "l2_norm":
+        resh = np.reshape(u.val, (dim, -1), order="F")
+        off = np.zeros_like(resh)
+        off[0, np.linalg.norm(resh, axis=0) < 0.05] = 0.2
+        u = u + off.ravel("F")
+        f = lambda w: F.l2_norm(dim, w)  # noqa: E731
+    elif fn == "abs":
+        u = u + np.where(np.abs(u.val) < 0.05, np.where(u.val >= 0, 0.1, -0.1), 0.0)
+        f = F.abs
+    else:
+        d = u.val - v.val
+        u = u + np.where(np.abs(d) < 0.05, np.where(d >= 0, 0.1, -0.1), 0.0)
+        f = None
+    if fn == "maximum":
+        base, scaled = F.maximum(u, v), F.maximum(u * s, v * s)
+    else:
+        base, scaled = f(u), f(u * s)
+    require_close(scaled.val, s * base.val, "homogeneous-value", rtol=1e-12, atol=0.0,
+                  what=f"{fn}(s u) vs s {fn}(u), s={s:g}")
+    Jb = base.jac.toarray() if hasattr(base.jac, "toarray") else np.asarray(base.jac)
+    Js = scaled.jac.toarray() if hasattr(scaled.jac, "toarray") else np.asarray(scaled.jac)
+    require_close(Js, s * Jb, "homogeneous-jacobian", rtol=1e-12, atol=0.0,
+                  what=f"Jacobian of {fn}(s u) vs s * Jacobian of {fn}(u), s={s:g}")
+    return {"labels": ["homog", "homog-" + fn, "homog-small" if s < 1 else "homog-large"],
+            "nontrivial": len(spec["x"]) >= 2}
 
 
 def _fd_jac(E, tree, X, h):
@@ -64,6 +125,8 @@ def _cs_jac(E, tree, X):
 def check(spec):
     import porepy as pp
 
+    if "homog" in spec:
+        return _check_homog(spec)
     X = [np.array(x, dtype=float) for x in spec["x"]]
     tree = spec["tree"]
     E = Evaluator()
